@@ -405,7 +405,7 @@ def rand_quals_step(r, sep=":"):
     if c == 21:
         return "clear" if r.chance(1, 4) else "len"
     if c == 22:
-        return r.pick(["iter", "riter", "len"])
+        return r.pick(["iter", "riter", "len", "ends"])
     if c == 23:
         return J([r.pick(["imut", "rimut"]), v()])
     if c == 24:
@@ -448,7 +448,7 @@ def q_exh_ops():
             ops.append("ins:%s:%s" % (hk, hx(v)))
         ops += ["rm:" + hk, "get:" + hk, "ent:%s:oi:%s" % (hk, hx("2")), "ent:%s:orme" % hk, "ent:%s:am:%s" % (hk, hx("3")),
                 "mut:%s:%s" % (hk, hx("4"))]
-    ops += ["retne", "riter", "clear"]
+    ops += ["retne", "riter", "clear", "ends"]
     return ops
 
 
